@@ -162,6 +162,14 @@ def gen_inputs(ctx):
     for k, v in enumerate(sorted(vals)):
         jobs.append((slots[0] % v, False))
         jobs.append((slots[1 + k % (len(slots) - 1)] % v, k % 7 == 0))
+    # documents cut off at a token boundary (with and without a final line break): the error sits at the end of the input
+    for k in range(30 if quick else 400):
+        r4 = random.Random(f'{ctx.seed}:c08t:{k}')
+        toks4 = GT.tokens(r4.choice(base))
+        for _ in range(12):
+            cut = r4.randrange(1, len(toks4) + 1)
+            pre = ''.join(toks4[:cut])
+            jobs.append((pre.rstrip('\n') + r4.choice(['', '\n', '\n\n', ' \n']), r4.random() < 0.3))
     n = 5000 if quick else 120000
     for _ in range(n):
         k = rng.random()
